@@ -46,6 +46,7 @@ def _stream_for(case: dict) -> bytes:
 @st.composite
 def st_schedule_case(draw: st.DrawFn, tier: str) -> dict:
     kind = draw(st.sampled_from(["recv", "recv_into", "endpoint-A", "endpoint-B", "server-A", "server-B"]))
+    small_proto = kind in ("recv", "recv_into") and draw(st.integers(0, 1)) == 0
     nsteps = draw(st.integers(1, 12))
     steps = []
     ncancel = 0
@@ -54,7 +55,7 @@ def st_schedule_case(draw: st.DrawFn, tier: str) -> dict:
         step = []
         for a in acts:
             if a == "data":
-                step.append(("data", draw(st.sampled_from([1, 2, 5, 5, 17, 300]))))
+                step.append(("data", draw(st.sampled_from([1, 2, 5, 5, 17, 300] + ([4096, 5000] if small_proto else [])))))
             elif a in ("cancel", "expire"):
                 if ncancel < 6:
                     ncancel += 1
@@ -67,7 +68,8 @@ def st_schedule_case(draw: st.DrawFn, tier: str) -> dict:
         "layer_kind": kind,
         "steps": steps,
         "total": max(total, 1),
-        "bufsize": draw(st.sampled_from([1, 3, 16, 1024, 65536])),
+        "bufsize": draw(st.sampled_from([4096, 4096, 8192, 1024])) if small_proto else draw(st.sampled_from([1, 3, 16, 1024, 65536])),
+        "proto_max_size": 4096 if small_proto else None,
         "max_recv": draw(st.sampled_from([None, None, 1, 4])),
         "eof_in_same_step_as_last": draw(st.booleans()),
         "poll_after_request": draw(st.booleans()),
@@ -77,7 +79,12 @@ def st_schedule_case(draw: st.DrawFn, tier: str) -> dict:
 async def _run_schedule(case: dict) -> dict:
     loop = asyncio.get_running_loop()
     backend = AsyncIOBackend()
-    protocol = StreamReaderBufferedProtocol(loop=loop)
+    proto_cls: Any = StreamReaderBufferedProtocol
+    if case.get("proto_max_size"):
+        # the protocol's internal buffer size is a class attribute (256 KiB): a small value makes "internal buffer full"
+        # (read flow control, put-back of a whole caller buffer) reachable with small streams
+        proto_cls = type("SmallBufferProtocol", (StreamReaderBufferedProtocol,), {"max_size": int(case["proto_max_size"]), "__slots__": ()})
+    protocol = proto_cls(loop=loop)
     transport = FakeAsyncioTransport(loop, protocol, kernel_capacity=None, max_recv=case["max_recv"])
     adapter = AsyncioTransportStreamSocketAdapter(backend, transport, protocol)
     stream = _stream_for(case)
@@ -221,6 +228,8 @@ def run_schedule_case(case: dict) -> Outcome:
     same_step = _same_step_shape(case)
     _judge(r["received"], r["stream"], case["layer_kind"], receive_layer=case["layer_kind"], same_iteration_cancel_and_data=same_step)
     classes = [case["layer_kind"], f"cancels-{min(r['cancels'], 3)}"]
+    if case.get("proto_max_size"):
+        classes.append("small-internal-buffer")
     if same_step:
         classes.append("cancel-and-data-same-iteration")
     return Outcome(nontrivial=r["cancels"] > 0 and (same_step or _adjacent(case)), classes=tuple(classes))
